@@ -192,6 +192,7 @@ pub fn profile_for(prop: &str) -> Profile {
                 p.w.read = 12;
                 p.w.open_dir = 12;
                 p.w.close_volume = 4;
+                p.w.label = 5;
                 p.min_len = 4;
                 p.max_len = 16;
             }
@@ -215,6 +216,8 @@ pub struct Gen {
     pub fresh: u32,
     pub target_len: usize,
     pub secs: u64,
+    /// scripted fill / delete / refill cycles (C05): (state, cycles left, writes after full)
+    pub cycle: Option<(u8, u8, u8)>,
 }
 
 impl Gen {
@@ -240,7 +243,9 @@ impl Gen {
             }
         }
         let target_len = if rng.chance(3, 5) { rng.range(p.min_len as u64, ((p.min_len + p.max_len) / 2) as u64) as usize } else { rng.range(p.min_len as u64, p.max_len as u64) as usize };
-        Gen { rng, p, fresh: 0, target_len, secs: clock0 }
+        let cycle = if p.name == "C05" && rng.chance(1, 6) { Some((0u8, rng.range(3, 6) as u8, 0u8)) } else { None };
+        let target_len = if cycle.is_some() { 400 } else { target_len };
+        Gen { rng, p, fresh: 0, target_len, secs: clock0, cycle }
     }
 
     fn fl(&mut self) -> u8 {
@@ -349,7 +354,77 @@ impl Gen {
         }
     }
 
+    /// fill to exactly full, one write too many, close, delete, again (slots 0 of each kind)
+    fn next_cycle(&mut self, w: &World) -> Option<Op> {
+        let (st, left, extra) = self.cycle?;
+        let vol0 = 0usize;
+        match st {
+            0 => {
+                self.cycle = Some((1, left, 0));
+                Some(Op::OpenVolume { vs: 0, idx: w.vols[vol0].mbr_slot, fl: 0 })
+            }
+            1 => {
+                self.cycle = Some((2, left, 0));
+                Some(Op::OpenRoot { vs: 0, ds: 0, fl: 0 })
+            }
+            2 => {
+                if left == 0 || w.dslots[0].cur.is_none() {
+                    self.cycle = None;
+                    self.target_len = 0;
+                    return Some(Op::Checkpoint);
+                }
+                self.cycle = Some((3, left, 0));
+                Some(Op::OpenFile { ds: 0, name: format!("CYC{}.DAT", left), mode: 4, fs: 0, fl: 0 })
+            }
+            3 => {
+                if w.fslots[0].cur.is_none() {
+                    // the create itself failed (root full ...): give up the script
+                    self.cycle = None;
+                    self.target_len = 0;
+                    return Some(Op::Checkpoint);
+                }
+                let cb = w.vols[vol0].geom.cluster_bytes();
+                let free = w.free_clusters(vol0);
+                if free == 0 {
+                    if extra >= 1 {
+                        self.cycle = Some((4, left, 0));
+                    } else {
+                        self.cycle = Some((3, left, extra + 1));
+                    }
+                    // one write too many: must be refused, everything written so far must stay readable
+                    return Some(Op::Write { fs: 0, len: self.rng.range(1, cb as u64) as u32, seed: self.rng.next_u32(), fl: 0 });
+                }
+                if free > 200 || cb as u64 * free as u64 > 3_000_000 {
+                    // not a nearly-full volume: the cycle would take too long
+                    self.cycle = None;
+                    self.target_len = 0;
+                    return Some(Op::Checkpoint);
+                }
+                let take = (self.rng.range(1, free.min(6) as u64) as u32) * cb - if self.rng.chance(1, 3) { self.rng.range(0, cb as u64 - 1) as u32 } else { 0 };
+                Some(Op::Write { fs: 0, len: take.max(1), seed: self.rng.next_u32(), fl: 0 })
+            }
+            4 => {
+                self.cycle = Some((5, left, 0));
+                Some(Op::CloseFile { fs: 0, fl: 0 })
+            }
+            _ => {
+                self.cycle = Some((2, left - 1, 0));
+                if self.rng.chance(1, 3) {
+                    // truncate instead of delete, now and then
+                    Some(Op::OpenFile { ds: 0, name: format!("CYC{}.DAT", left), mode: 2, fs: 1.min(w.fslots.len() as u8 - 1), fl: 0 })
+                } else {
+                    Some(Op::Delete { ds: 0, name: format!("CYC{}.DAT", left), fl: 0 })
+                }
+            }
+        }
+    }
+
     pub fn next(&mut self, w: &World) -> Option<Op> {
+        if self.cycle.is_some() {
+            if let Some(op) = self.next_cycle(w) {
+                return Some(op);
+            }
+        }
         let nv = w.open_vol_count();
         let nd = w.open_dir_count();
         let nf = w.open_file_count();
